@@ -36,6 +36,7 @@ func CreateBackends(shardCount int) *Backends {
 		itemsAdd:      map[string]*Backend{},
 		itemsDel:      map[string]*Backend{},
 		authBackends:  map[string]*Backend{},
+		pathsChanged:  map[string]*Backend{},
 		shards:        shards,
 		changedShards: map[int]bool{},
 	}
@@ -149,7 +150,21 @@ func (b *Backends) Commit() {
 	b.itemsAdd = map[string]*Backend{}
 	b.itemsDel = map[string]*Backend{}
 	b.changedShards = map[int]bool{}
+	b.pathsChanged = map[string]*Backend{}
 	b.defaultBackendCommitted = b.defaultBackendID()
+}
+
+// PathsChanged flags a backend that had a path added in place, without being
+// built again, eg the root path that strict-host adds to the hosts that do not
+// declare one. Its path maps and its configuration need to be written again.
+func (b *Backends) PathsChanged(backend *Backend) {
+	b.pathsChanged[backend.ID] = backend
+	b.BackendChanged(backend)
+}
+
+// ItemsPathsChanged ...
+func (b *Backends) ItemsPathsChanged() map[string]*Backend {
+	return b.pathsChanged
 }
 
 func (b *Backends) defaultBackendID() string {
